@@ -20,6 +20,12 @@
 (* the violation planted) placed in every CONTEXT, plus the entry-point    *)
 (* programs.  Expectation: every base program is accepted and its Lua      *)
 (* loads; every planted program is rejected (Expect).                      *)
+(*                                                                         *)
+(* Continued in SyltShapesFam: the loop-control and the case-totality      *)
+(* clause stated as rules over the program text (LoopControlOk, CaseOk)    *)
+(* and evaluated on every function flavour x loop-carrying context and on  *)
+(* every multiset of case arms (a separate module so that its model does   *)
+(* not re-evaluate the universe below).                                    *)
 (***************************************************************************)
 EXTENDS SyltAst, FiniteSets, TLC
 
